@@ -44,6 +44,7 @@ import (
 type cfg struct {
 	name   string
 	radius string // "" (no RADIUS: every PAP request is accepted), "password" (good accepted, bad rejected), "timeout"
+	auth   string // ServerConfig.AuthType: "pap" (default), "both", "chap"
 }
 
 var (
@@ -99,13 +100,14 @@ type sys struct {
 	cookieOf map[string][]byte // last AC-Cookie offered to the station
 	ident    byte
 	waits    int
+	wrapped  bool // the "id-wrap" op has been used
 	t0       time.Time // virtual time at the start of the execution (reference for absolute timestamps)
 	hist     []string
 	viols    []explore.Viol
 }
 
 func newSys(c cfg) *sys {
-	sc := pppoe.ServerConfig{Interface: "verif0", ACName: "ac", ServiceName: "internet", ServerIP: "10.0.0.1", ClientPool: "10.0.0.0/28", PoolGateway: "10.0.0.1", AuthType: "pap"}
+	sc := pppoe.ServerConfig{Interface: "verif0", ACName: "ac", ServiceName: "internet", ServerIP: "10.0.0.1", ClientPool: "10.0.0.0/28", PoolGateway: "10.0.0.1", AuthType: c.auth}
 	srv, err := pppoe.VerifC04NewServer(sc, zap.NewNop(), serverMAC)
 	if err != nil {
 		panic(err)
@@ -220,6 +222,9 @@ func (s *sys) Ops() []string {
 	if s.waits < maxWaits {
 		ops = append(ops, "wait")
 	}
+	if !s.wrapped && len(sessions) >= 1 && len(sessions) < 3 {
+		ops = append(ops, "id-wrap")
+	}
 	return ops
 }
 
@@ -272,6 +277,13 @@ const waitStep = time.Minute
 
 func (s *sys) Apply(op string) string {
 	s.hist = append(s.hist, op)
+	if op == "id-wrap" {
+		// 65533 further sessions have come and gone: the next id to hand out is the
+		// last one before the 16-bit counter wraps; the live sessions stay.
+		s.wrapped = true
+		s.srv.VerifC04SetNextSessionID(65535)
+		return "next-id=65535"
+	}
 	if op == "wait" {
 		s.waits++
 		time.Sleep(waitStep)
@@ -361,6 +373,7 @@ func (s *sys) observe(op, kind, snd string, target uint16) string {
 				out = append(out, "PADO>"+to)
 			case pppoe.CodePADS:
 				s.sidOf[to], s.owner[sid] = sid, to
+				s.authOK[sid] = false // a new session (ids are reused after the counter wraps) starts unauthenticated
 				out = append(out, fmt.Sprintf("PADS(%d)>%s", sid, to))
 			}
 			continue
@@ -476,15 +489,30 @@ func (s *sys) Fingerprint() string {
 		}
 	}
 	sort.Strings(ok)
-	return d + "|auth=" + strings.Join(ok, ",") + fmt.Sprintf("|waits=%d", s.waits)
+	return d + "|auth=" + strings.Join(ok, ",") + fmt.Sprintf("|waits=%d,wrapped=%v", s.waits, s.wrapped)
 }
 
 func (s *sys) Check() []explore.Viol { return s.viols }
 
 // ---------------------------------------------------------------- models
 
-func configs() []cfg {
-	return []cfg{{"no-radius", ""}, {"radius-by-password", "password"}, {"radius-timeout", "timeout"}}
+func configs(thorough bool) []cfg {
+	cs := []cfg{
+		{"no-radius", "", "pap"},
+		{"radius-by-password", "password", "pap"},
+		{"radius-timeout", "timeout", "pap"},
+		// non-default AuthType values (documented: "pap", "chap", "both"): a configured
+		// RADIUS server decides about every PAP request whatever LCP advertised
+		{"radius-by-password auth=both", "password", "both"},
+		{"radius-timeout auth=chap", "timeout", "chap"},
+	}
+	if thorough {
+		cs = append(cs,
+			cfg{"no-radius auth=both", "", "both"},
+			cfg{"radius-by-password auth=chap", "password", "chap"},
+			cfg{"radius-timeout auth=both", "timeout", "both"})
+	}
+	return cs
 }
 
 func bubble(t *testing.T) func(func()) {
@@ -499,7 +527,7 @@ func models(run *report.Run, t *testing.T) []*explore.Model {
 		budget = 5 * time.Minute
 	}
 	var ms []*explore.Model
-	for _, c := range configs() {
+	for _, c := range configs(run.Thorough()) {
 		c := c
 		ms = append(ms, &explore.Model{
 			Name: "pppoe.Server", Config: c.name,
@@ -517,6 +545,7 @@ func TestCheck(t *testing.T) {
 		"pppoe.Server has no CHAP handler and no local user table: without RADIUS every PAP request is accepted (that is its back end); CHAP frames are outside the alphabet",
 		"frames are well formed (malformed lengths are property C09)",
 		"stations are interchangeable except through the sessions they own: the first session is A's; a station owning no live session is represented by F",
+		"'id-wrap' (at most once) presets the session-id counter to 65535 with the live sessions kept: the state after 65533 further sessions have come and gone",
 		"at most three sessions per execution (a station may hold several) and at most one 'wait' (one minute of virtual time without frames)",
 	}
 	vradius.SetExchange(scriptedExchange)
